@@ -1,6 +1,7 @@
 (* C20 — evaluator for generated case files.
-   A case = configuration + request + what every stub backend received and answered (in order, per
-   backend) + what Conn.<Type>List returned.  [model_b] replays the model against the recorded answers
+   A case = configuration (incl. Login.LoginCluster) + which Conn.<Type>List was called + request + what
+   every stub backend received and answered (in order, per backend; list requests and, for the local
+   backend, UserBatchUpdate calls) + whether the call returned at all (o_fate) + what it returned.  [model_b] replays the model against the recorded answers
    and compares requests, error class and merged items; [spec_b] judges the observed behaviour with a
    specification written independently of the model's control flow (targets are defined as "27-char
    strings satisfying every uuid filter"); proofs/C20_spec.v relates the two. *)
